@@ -29,6 +29,7 @@ type World struct {
 	cg    *callgraph.Graph
 	fnOf  map[*types.Func]*ssa.Function
 	eff   *effectTable
+	brk   map[token.Pos]string
 }
 
 const modulePath = "ti"
@@ -302,4 +303,27 @@ func isPtrToNamed(t types.Type, pkgPath, name string) bool {
 		}
 	}
 	return isNamed(p.Elem(), pkgPath, name)
+}
+
+// bracketExprAt renders the index or slice expression whose '[' is at pos.
+func (w *World) bracketExprAt(pos token.Pos) string {
+	if w.brk == nil {
+		w.brk = map[token.Pos]string{}
+		for _, p := range w.Pkgs {
+			for _, f := range p.Syntax {
+				ast.Inspect(f, func(n ast.Node) bool {
+					switch x := n.(type) {
+					case *ast.IndexExpr:
+						w.brk[x.Lbrack] = types.ExprString(x)
+					case *ast.SliceExpr:
+						w.brk[x.Lbrack] = types.ExprString(x)
+					case *ast.TypeAssertExpr:
+						w.brk[x.Lparen] = types.ExprString(x)
+					}
+					return true
+				})
+			}
+		}
+	}
+	return w.brk[pos]
 }
